@@ -7,7 +7,7 @@ wt=/tmp/wt-seedrun
 git -C $wt checkout -q --detach $(git -C /repo rev-parse HEAD) 2>/dev/null; git -C $wt checkout -q -- . ; git -C $wt clean -qfd -e target
 name=demo_$(basename $d | tr -c 'A-Za-z0-9\n' '_')
 demo_cmd=""
-if [ -f $d/demo.rs ]; then mkdir -p $wt/tests; sed "s#/tmp/wt-C[0-9]*#$wt#g" $d/demo.rs > $wt/tests/$name.rs; demo_cmd="cargo test --offline --test $name"; 
+if [ -f $d/demo.rs ]; then mkdir -p $wt/tests; sed "s#/tmp/wt[0-9]*-C[0-9]*#$wt#g" $d/demo.rs > $wt/tests/$name.rs; demo_cmd="cargo test --offline --test $name"; 
 elif [ -f $d/demo.diff ]; then git -C $wt apply $d/demo.diff || { echo "$(basename $d): demo.diff does not apply"; exit 1; }; demo_cmd="cargo test --offline --lib demo"; fi
 run_demo() { (cd $wt && XDG_DATA_HOME=/tmp/wt-seedrun-xdg $demo_cmd 2>&1 | grep -E "^test result" | tail -1); }
 base=$(run_demo)
